@@ -1,7 +1,9 @@
 SPECIFICATION FairSpec
 CONSTANTS
   Msgs = {1, 2, 3}
-  WCap = 3
+  WCap = 4
+  Dec = 2
+  Slack = 0
   MaxAtt = 3
   Classes = {"ok", "okslow", "fail", "err"}
   Scripts <- mcScripts
